@@ -1,8 +1,12 @@
 //! Shared helpers for the per-property harness binaries (src/bin/*.rs).
 //! Line protocol convention: one case per stdin line, one canonical result per stdout line.
 
+// the type catalogue (hundreds of monomorphised Rust types) and the wire helpers built on it take minutes to compile:
+// only the binaries that use them ask for the feature (lib/vlib.py harness_build adds it for them)
+#[cfg(feature = "catalogue")]
 pub mod catalogue;
 pub mod conn;
+#[cfg(feature = "catalogue")]
 pub mod wirelib;
 
 use std::io::{BufRead, Write};
